@@ -14,7 +14,7 @@ import core  # noqa: E402
 def families(tier):
     import fam_arith
     fams = [("arith", fam_arith.cases(quick=(tier == "quick")))]
-    for modname in ("fam_order", "fam_ctrl", "fam_data", "fam_coll", "fam_call"):
+    for modname in ("fam_order", "fam_ctrl", "fam_data", "fam_coll", "fam_call", "fam_compose"):
         try:
             mod = __import__(modname)
         except ModuleNotFoundError:
@@ -50,10 +50,12 @@ def check_units(c, tc, scratch, units, backends=("cannon", "boots"), flags=None,
                 c.violation("no-result:%s:%s" % (case.family, b), "case %s produced no result" % case.name,
                             {"case": case.name, "backend": b, "body": case.body})
                 continue
-            want_end = "exit:%d" % case.expect_end
-            ok = (o.end == want_end) and (case.expect_end != 0 or o.out == case.expect_out)
-            if ok and case.expect_end != 0:
-                ok = o.errline == core.TRAPS[case.expect_end] and o.out == case.expect_out
+            want_end = "exit:%s" % case.expect_end
+            if case.expect_end is None:
+                continue  # differential-only case (C02 compares the two generators)
+            ok = (o.end == want_end) and o.out == case.expect_out
+            if ok and case.expect_end in core.TRAPS:
+                ok = o.errline == core.TRAPS[case.expect_end]
             if not ok:
                 opname = case.name.split("(")[0]
                 c.violation("c01:%s:%s:%s" % (case.family, opname, b),
